@@ -86,7 +86,9 @@ func (e Expectation) AssertValidity(notBefore, notAfter time.Time) error {
 		return errorchain.NewWithMessage(ErrAssertion, "not yet valid")
 	}
 
-	if exp > 0 && now-leeway >= exp {
+	// a zero time value means there is no expiry defined. Any other value, including those
+	// at or before the unix epoch, is a point in time, the token expires at
+	if !notAfter.IsZero() && now-leeway >= exp {
 		return errorchain.NewWithMessage(ErrAssertion, "expired")
 	}
 
